@@ -1,0 +1,160 @@
+//go:build verif
+
+package putsvc
+
+import (
+	"bytes"
+	"context"
+	"errors"
+	"fmt"
+
+	iec "github.com/nspcc-dev/neofs-node/internal/ec"
+	neofscrypto "github.com/nspcc-dev/neofs-sdk-go/crypto"
+	cid "github.com/nspcc-dev/neofs-sdk-go/container/id"
+	"github.com/nspcc-dev/neofs-sdk-go/netmap"
+	"github.com/nspcc-dev/neofs-sdk-go/object"
+	oid "github.com/nspcc-dev/neofs-sdk-go/object/id"
+	protoobject "github.com/nspcc-dev/neofs-sdk-go/proto/object"
+	"go.uber.org/zap"
+	"google.golang.org/protobuf/encoding/protowire"
+)
+
+// VerifPutCase describes one object placement for the verification harness: the
+// container's node lists and rules, the object, and the callbacks standing for
+// the nodes (local storage and remote transport).
+type VerifPutCase struct {
+	Rep   []uint
+	EC    []iec.Rule
+	Lists [][]netmap.NodeInfo
+
+	LocalKey []byte // public key of the local node (may be in no list)
+
+	Obj object.Object // header with payload
+
+	SessionSigner neofscrypto.Signer // nil: object sealed by the client
+	NodeSigner    neofscrypto.Signer
+	ECPart        iec.PartInfo // RuleIndex < 0: not an EC part
+	Initial       *netmap.InitialPlacementPolicy
+
+	// Send stands for every node: local storage Put (local=true) and the
+	// replication request to a remote node. A nil result is an acknowledgement.
+	Send func(local bool, nodeKey []byte, obj *object.Object) error
+	// Post receives post-placement replication tasks.
+	Post func(obj *object.Object, nodes []netmap.NodeInfo)
+}
+
+type verifCnrNodes struct{ c *VerifPutCase }
+
+func (x verifCnrNodes) Unsorted() [][]netmap.NodeInfo                     { return x.c.Lists }
+func (x verifCnrNodes) SortForObject(oid.ID) ([][]netmap.NodeInfo, error) { return x.c.Lists, nil }
+func (x verifCnrNodes) PrimaryCounts() []uint                             { return x.c.Rep }
+func (x verifCnrNodes) ECRules() []iec.Rule                               { return x.c.EC }
+
+type verifNet struct{ c *VerifPutCase }
+
+func (x verifNet) IsLocalNodePublicKey(pk []byte) bool {
+	return len(x.c.LocalKey) > 0 && string(pk) == string(x.c.LocalKey)
+}
+func (x verifNet) GetContainerNodes(cid.ID) (ContainerNodes, error) { return verifCnrNodes(x), nil }
+func (x verifNet) GetEpochBlock(uint64) (uint32, error)             { return 0, errors.New("unsupported") }
+func (x verifNet) GetEpochBlockByTime(uint32) (uint32, error)       { return 0, errors.New("unsupported") }
+
+type verifStorage struct{ c *VerifPutCase }
+
+func (x verifStorage) Put(_ context.Context, obj *object.Object, _ []byte) error {
+	return x.c.Send(true, x.c.LocalKey, obj)
+}
+func (x verifStorage) IsLocked(context.Context, oid.Address) (bool, error) { return false, nil }
+
+type verifTransport struct{ c *VerifPutCase }
+
+// SendReplicationRequestToNode decodes the object out of the prepared replication request.
+func (x verifTransport) SendReplicationRequestToNode(_ context.Context, req []byte, node netmap.NodeInfo) ([]byte, error) {
+	b := req
+	for len(b) > 0 {
+		num, typ, n := protowire.ConsumeTag(b)
+		if n < 0 {
+			return nil, fmt.Errorf("verif: bad replicate request tag: %w", protowire.ParseError(n))
+		}
+		b = b[n:]
+		if num == protoobject.FieldReplicateRequestObject && typ == protowire.BytesType {
+			v, n := protowire.ConsumeBytes(b)
+			if n < 0 {
+				return nil, fmt.Errorf("verif: bad replicate request object: %w", protowire.ParseError(n))
+			}
+			var obj object.Object
+			if err := obj.Unmarshal(v); err != nil {
+				return nil, fmt.Errorf("verif: decode replicated object: %w", err)
+			}
+			return nil, x.c.Send(false, node.PublicKey(), &obj)
+		}
+		n = protowire.ConsumeFieldValue(num, typ, b)
+		if n < 0 {
+			return nil, fmt.Errorf("verif: bad replicate request field: %w", protowire.ParseError(n))
+		}
+		b = b[n:]
+	}
+	return nil, errors.New("verif: replicate request without object")
+}
+
+type verifPost struct{ c *VerifPutCase }
+
+func (x verifPost) HandlePostPlacement(obj *object.Object, nodes []netmap.NodeInfo) {
+	if x.c.Post != nil {
+		x.c.Post(obj, nodes)
+	}
+}
+
+// VerifSaveObject runs the real distributedTarget (WriteHeader, Write and the
+// distribution part of Close: saveObject) for one placement case. Payload content
+// validation (FormatValidator.ValidateContent) is not part of it. The local node
+// is treated as a container node, so remote nodes receive replication requests.
+func VerifSaveObject(c *VerifPutCase) (err error) {
+	regular := c.Obj.Type() == object.TypeRegular
+	t := &distributedTarget{
+		opCtx: context.Background(),
+		placementIterator: placementIterator{
+			log:      zap.NewNop(),
+			neoFSNet: verifNet{c},
+		},
+		localStorage:            verifStorage{c},
+		transport:               verifTransport{c},
+		containerNodes:          verifCnrNodes{c},
+		ecPart:                  c.ECPart,
+		ecSplitOnlyObject:       c.ECPart.RuleIndex < 0 && len(c.Rep) == 0,
+		localNodeInContainer:    true,
+		localNodeSigner:         c.NodeSigner,
+		sessionSigner:           c.SessionSigner,
+		initialPolicy:           c.Initial,
+		postPlacementReplicator: verifPost{c},
+	}
+	if len(c.EC) > 0 && regular {
+		t.ecRules = c.EC
+	}
+
+	payload := c.Obj.Payload()
+	hdr := c.Obj.CutPayload()
+	if len(t.ecRules) > 0 && c.ECPart.RuleIndex < 0 && c.SessionSigner != nil {
+		// node-side EC encoding, as the slicer's split modifier does
+		if err = t.modifyECParentObject(hdr, bytes.NewReader(payload)); err != nil {
+			return err
+		}
+		if err = hdr.CalculateAndSetID(); err != nil {
+			return err
+		}
+	}
+	defer func() {
+		t.encodedObject.b = nil
+		t.encodedECParts = nil
+	}()
+	if err = t.WriteHeader(hdr); err != nil {
+		return err
+	}
+	if _, err = t.Write(payload); err != nil {
+		return err
+	}
+	if !t.doNotEncodeOriginalObject(t.obj) {
+		t.obj.SetPayload(t.encodedObject.b[t.encodedObject.pldOff:])
+	}
+	return t.saveObject(*t.obj, t.encodedObject)
+}
